@@ -417,7 +417,8 @@ def dot_case(cid: str, obj: Any, family: str, *, partition: bool = False,
         view = vizdot.graphviz_view(text)
         if view is not None:
             res["stats"]["graphviz"] = 1
-            mine_ok = R["error"] != "dot_syntax"
+            # (graphviz refuses a text whose HTML-like label is not well-formed XML)
+            mine_ok = R["error"] == ""
             if view["ok"] and "badly delimited" in view.get("stderr", ""):
                 view = dict(view, ok=False)
             if view["ok"] != mine_ok:
@@ -464,7 +465,7 @@ def repr_case(cid: str, root: Any, family: str, depths: tuple = (3,)) -> dict:
                                 "what": "repr(x) != repr(x)"})
     if str(root) != t1 and not is_dict:
         res["stats"]["str_differs"] = 1
-    res["hashes"][cid] = {"text": sha(_ADDR.sub("0xADDR", t1)), "picture": ""}
+    res["hashes"][cid] = {"text": sha(_ADDR.sub("0xADDR", t1)), "picture": "", "repr": True}
     res["stats"].update({"chars": len(t1), "objects": len(S["nodes"])})
     for d in depths:
         if d == 3:
@@ -543,6 +544,11 @@ def fancy_case(cid: str, outs: dict[str, Any], family: str) -> dict:
             return res
         except ValueError as ex:
             from . import mapperharness as mh
+            if type(ex).__name__ == "UnknownIndexLambdaExpr":
+                # pytato.raising's documented diagnostic: an index lambda the
+                # (opinionated) picture has no symbol for
+                res["status"] = "refused:UnknownIndexLambdaExpr"
+                return res
             if "cache collision" in str(ex) and mh.reflect(list(outs.values())).has_dups():
                 res["status"] = "refused:duplicates"
                 return res
